@@ -988,6 +988,7 @@ fn exec_op<P: Payload>(cx: &mut Ctx<P>, gi: u32, slot: usize, k: K, op: Op) -> R
                 let st = cx.stream.take();
                 drop(st);
             }
+            let created = cx.stream.is_none();
             if cx.stream.is_none() {
                 let h = cx.tab()[slot].as_ref().unwrap();
                 let st = h.async_r().stream();
@@ -998,7 +999,15 @@ fn exec_op<P: Payload>(cx: &mut Ctx<P>, gi: u32, slot: usize, k: K, op: Op) -> R
             }
             let sid = (cx.t as u32) * 100 + cx.stream_seq;
             upd(gi, |o| o.stream_id = sid);
-            let (s_slot, st, w, wid) = cx.stream.take().unwrap();
+            let (s_slot, st, mut w, mut wid) = cx.stream.take().unwrap();
+            if !created && op.h & 3 == 3 {
+                // the stream changes hands between two items: this wait starts with a waker the
+                // stream has never seen (the previous wait's waker must not be the one registered)
+                let (w2, id2) = make_waker();
+                w = w2;
+                wid = id2;
+                rt::count_stream_handed_over();
+            }
             let mut st = Some(st);
             let script = decode_script(op.a, op.b, cx.bias);
             let (out, wk) = drive(
@@ -1470,6 +1479,7 @@ pub fn run_any(prog: &Program) -> RunOut {
         Pay::U128 => run_program::<u128>(prog),
         Pay::PB => run_program::<PB>(prog),
         Pay::PBIG => run_program::<PBIG>(prog),
+        Pay::PHUGE => run_program::<PHUGE>(prog),
         Pay::PA64 => run_program::<PA64>(prog),
         Pay::PH => run_program::<PH>(prog),
     }
